@@ -16,7 +16,7 @@
 (* Verdict per record (v):                                                  *)
 (*   agree            obs = TrueReport (the ideal report) and Correct        *)
 (*   agree_window     obs = the report of the window the code keeps, Correct *)
-(*   known_d9 / known_d13 / known_tok / known_yaml   obs is what the implementation-level *)
+(*   known_d9 / known_d13 / known_tok / known_yaml / known_stream   obs is what the implementation-level *)
 (*                    model predicts, the property fails, and the scenario   *)
 (*                    lies in the structural class of that finding           *)
 (*   correct_not_impl Correct, differs from the implementation model inside  *)
@@ -91,6 +91,25 @@ YamlVerdict(rec) ==
                   THEN [v |-> "known_yaml", info |-> [index |-> p, byte |-> pb, impl |-> Pub(impl), true |-> Pub(ideal), correct |-> corr]]
              ELSE [v |-> "mismatch", why |-> "yaml report", info |-> [index |-> p, byte |-> pb, impl |-> Pub(impl), true |-> Pub(ideal)]]
 
+\* --stream: the positions come from the token API of encoding/json (environment, logged), whose
+\* SyntaxError.Offset does not follow the scanner's convention (D15); seekable inputs below BUFSZ*3/4 only
+StreamVerdict(rec) ==
+  LET t == rec.text
+      N == TLen(t)
+      err == rec.err
+      o == rec.obs
+      ee == rec.env.err
+  IN IF ee.k \notin {"syntax", "eof"} \/ ee.k # err.k THEN [v |-> "env_disagree"]
+     ELSE IF o.fmt = "none" THEN [v |-> "mismatch", why |-> "no report"]
+     ELSE LET tru == TrueReport(t, err)
+              impl == ReportOfView(t, ViewFile(t, ee))
+              corr == Correct(t, err, ObsRec(o))
+              info == [impl |-> Pub(impl), true |-> Pub(tru), correct |-> corr, envp |-> IF ee.k = "syntax" THEN ee.p ELSE -1]
+          IN IF Width(o.ex) < 0 \/ Width(impl.ex) < 0 \/ Width(tru.ex) < 0 THEN [v |-> "oom"]
+             ELSE IF SameJson(o, tru) /\ o.name = rec.name /\ corr THEN [v |-> "agree", line |-> tru.line, col |-> tru.col, exlen |-> Len(tru.ex)]
+             ELSE IF SameJson(o, impl) /\ o.name = rec.name /\ ~SameErr(ee, err) THEN [v |-> "known_stream", info |-> info]
+             ELSE [v |-> "mismatch", why |-> "--stream report", info |-> info]
+
 \* queries: library part (Offset/Token identify the offending bytes) and command part
 QueryVerdict(rec) ==
   LET t == rec.text
@@ -123,6 +142,7 @@ QueryVerdict(rec) ==
 
 RecVerdict(rec) ==
   LET v == CASE rec.kind = "json" -> JsonVerdict(rec)
+             [] rec.kind = "jsonstream" -> StreamVerdict(rec)
              [] rec.kind = "yaml" -> YamlVerdict(rec)
              [] rec.kind \in {"query", "lib"} -> QueryVerdict(rec)
   IN [id |-> rec.id] @@ v
